@@ -2,11 +2,19 @@
 C07 -- simplify never changes what a program returns.
 
 Space (bounded exhaustive, see mc/engine/progen_c07.py): every well-scoped
-program of <= N statements from eight small grammars ("families"), each aimed
+program of <= N statements from thirteen small grammars ("families"), each aimed
 at one decision the passes make: copy whose source is reassigned before the use
 (straight-line / if arm / loop back-edge), callee that writes its argument
 through a local alias called for effect, constant list mutated through an
-alias, nested-list rows, constants folded under different statically active
+alias, nested-list rows, effect-only helper calls on a nested list (family
+`poke`: `t = p(xss)` with t unread, or a bare `p(xss)`, then `xss[0][0]` read
+back; p in {direct write xss[0][0] = v; plain row alias row = xss[0]; row[0] =
+v; row stored by index into a list the helper built itself and written one
+level below the slot, t = [[0.0]]; t[0] = xss[0]; t[0][0] = v; row held in a
+literal, t = [xss[0]]; t[0][0] = v; a pure control that writes only storage
+built from fresh values}, one or two calls, optionally under an if; quick: all
+194 programs of <= 4 statements, thorough: <= 5, 2800 programs), constants
+folded under different statically active
 contexts (3-bit float RTZ, fixed-point RTP, binary64, declared function
 context), -0.0, constant conditions with early returns, tuple targets partly
 unused.
@@ -519,7 +527,7 @@ def _diag_const_fold(fn, before, kw, args, ref, got):
 
 def _callee_write_kind(callee) -> str:
     from fpy2.analysis import AssignDef, DefineUse
-    from fpy2.ast import Argument, Assign, DefaultVisitor, IndexedAssign, ListRef, Var
+    from fpy2.ast import Argument, Assign, DefaultVisitor, IndexedAssign, ListExpr, ListRef, Var
 
     du = DefineUse.analyze(callee.ast)
     found = []
@@ -531,15 +539,30 @@ def _callee_write_kind(callee) -> str:
 
     V()._visit_function(callee.ast, None)
 
+    def holds_param_row(ex, depth) -> bool:
+        """Is the stored expression (a row of) a list that reaches the callee through a parameter?"""
+        try:
+            while isinstance(ex, ListRef):
+                ex = ex.value
+            return isinstance(ex, Var) and origin(du.find_def_from_use(ex), depth + 1) in (
+                'parameter', 'local-alias-of-parameter', 'row-of-parameter')
+        except Exception:  # noqa: BLE001 - a label only
+            return False
+
     def origin(d, depth=0):
         if not isinstance(d, AssignDef) or depth > 8:
             return 'other'
         if isinstance(d.site, Argument):
             return 'parameter'
         if isinstance(d.site, IndexedAssign):
-            return origin(du.defs[d.prev], depth + 1) if d.prev is not None else 'other'
+            o = origin(du.defs[d.prev], depth + 1) if d.prev is not None else 'other'
+            if o == 'local' and holds_param_row(d.site.expr, depth):
+                return 'local-list-with-row-of-parameter-stored-by-index'
+            return o
         if isinstance(d.site, Assign):
             ex = d.site.expr
+            if isinstance(ex, ListExpr) and any(holds_param_row(c, depth) for c in _children(ex)):
+                return 'list-literal-holding-row-of-parameter'
             if isinstance(ex, Var):
                 o = origin(du.find_def_from_use(ex), depth + 1)
                 return {'parameter': 'local-alias-of-parameter'}.get(o, o)
@@ -866,7 +889,9 @@ def inputs_for(fam, tier: str):
 
 class Check(BaseCheck):
     pid = 'C07'
-    rule = ('every program of <= N statements of each grammar family x every transformation of the tier x every '
+    rule = ('every program of <= N statements of each grammar family (incl. `poke`: helpers called only for their '
+            'effect on a nested list -- direct row write, row alias, row stored by index into a locally built list and '
+            'written one level below, row held in a literal, pure control) x every transformation of the tier x every '
             'input of the pool; a case is (program, transformation, input) judged where the original returns. '
             'nontrivial = distinct (program, transformed text, input) where the transformed program is not '
             'structurally equivalent to the original')
